@@ -52,13 +52,23 @@ def blockLoc : Block → Loc | .mk _ _ l => l
 def nameStr (n : Bytes) : String := String.ofList (n.map fun b => Char.ofNat b.toNat)
 
 /-- shape of an initialiser, as far as the documented exemptions / idioms look at it -/
+def stripParens : Exp → Exp
+  | .parens e _ => stripParens e
+  | e => e
+
 def initDesc : Exp → String
   | .func _ => "func"
-  | .name n _ => "name:" ++ nameStr n
-  | .parens (.name n _) _ => "name:" ++ nameStr n
-  | .index (.name n _) _ _ => "member:" ++ nameStr n
+  | .nil _ => "nil"
   | .binop .or (.name n _) _ _ => "or:" ++ nameStr n
-  | _ => "other"
+  | e =>
+    -- GetExpName looks through any number of parentheses
+    match stripParens e with
+    | .name n _ => "name:" ++ nameStr n
+    | .index p _ _ =>
+      (match stripParens p with
+       | .name n _ => "member:" ++ nameStr n
+       | _ => "other")
+    | _ => "other"
 
 def initAt (exps : List Exp) (i : Nat) : String :=
   match exps[i]? with
